@@ -89,7 +89,7 @@ def gen_source(rnd, idx, supplemental=False, same_layout_as=None):
     conv = rnd.choice(['.', '.', ','])
     delim = rnd.choice([None, None, ';', '|', 'tab'])
     hdr = rnd.random() < .7
-    if lay['sign'] == '' and rnd.random() < .15:
+    if rnd.random() < .15:
         lay['negate_setting'] = True
     name = 'Src%d' % idx
     rows = c05.gen_rows(rnd, lay, conv, rnd.randint(3, 14))
